@@ -24,6 +24,7 @@ type rsParams struct {
 	choose   bool // after every event the explorer chooses: fire nothing, only the shortest armed timer, or all to the horizon
 	blocking bool // blocking dial
 	n        int
+	nsw      bool // one-way calls with the no-send-waiting option
 }
 
 func (p rsParams) name() string {
@@ -31,7 +32,11 @@ func (p rsParams) name() string {
 	if p.choose {
 		f = "any-subset"
 	}
-	return fmt.Sprintf("restart/%s/%s/init-up=%v/fire-timers=%s/blocking-dial=%v/n=%d", p.script, p.kind, p.initUp, f, p.blocking, p.n)
+	k := p.kind
+	if p.nsw {
+		k += "+nsw"
+	}
+	return fmt.Sprintf("restart/%s/%s/init-up=%v/fire-timers=%s/blocking-dial=%v/n=%d", p.script, k, p.initUp, f, p.blocking, p.n)
 }
 
 func rsScenario(p rsParams) func() {
@@ -109,6 +114,7 @@ func rsScenario(p rsParams) func() {
 					c.Node = 1
 				}
 				c.Verdict = func(inv *world.QFInv) { inv.Level = len(inv.Keys); inv.Quorum = len(inv.Keys) >= p.n }
+				c.NoSendWaiting = p.nsw
 				w.Start(c)
 				mc.Quiesce() // no timer is fired here: a reply must not have to wait for one
 				key := fmt.Sprintf("%s/fire=%v/blocking=%v", classOf(p.kind), p.fire, p.blocking)
@@ -422,6 +428,13 @@ func rsInstances(tier string) []Instance {
 							}
 							p := rsParams{script: s, kind: kind, initUp: initUp, fire: fire, blocking: blocking, n: n}
 							out = append(out, Instance{Name: p.name(), Bound: bound, Root: rsScenario(p)})
+							if kind == "Unicast" && !blocking {
+								// fire-and-forget messages are the only traffic: nothing else makes the client reconnect
+								p.nsw = true
+								out = append(out, Instance{Name: p.name(), Bound: 1, Root: rsScenario(p)})
+								p.kind = "Multicast"
+								out = append(out, Instance{Name: p.name(), Bound: 1, Root: rsScenario(p)})
+							}
 						}
 					}
 				}
@@ -433,7 +446,7 @@ func rsInstances(tier string) []Instance {
 
 func init() {
 	register(&Check{ID: "C10",
-		Rule:        "fault-sequence enumeration: every script of length <= 4 (5 thorough) over {stop, start, call} that ends with a call, for node 1 initially up or down (down at manager creation included), x call kind {RPC, quorum call on 1 or 2 nodes, unicast} x back-off timers {fired to the horizon after every stop/start, never, or - as a free choice after every event - nothing / only the shortest armed timer / all} x dial mode {non-blocking, blocking}; manager with general and per-node metadata, servers with a connect callback; after each call the script observes at quiescence WITHOUT firing a timer; plus a family in which 1-2 calls are issued during an outage and the node is restarted by an adversary thread at any instant of a script-chosen round (in particular between two steps of a reconnect attempt), optionally with a second adversary thread that lets the armed back-off timers expire at any instant, after which a probe call must be delivered and answered; plus a family in which the node crashes and listens again (adversary thread) while a call is being issued - if the restarted server handled the request and replied, the call must get that reply; oracle: (a) a call issued while the node listens is delivered to its current incarnation, (b) once that incarnation's handler has returned the call has its reply with no back-off timer fired, (c) every accepted stream carries both metadata entries and triggers the connect callback exactly once; all schedules within the deviation bound inside each event; an outcome is (instance, accepted streams, incarnations)",
+		Rule:        "fault-sequence enumeration: every script of length <= 4 (5 thorough) over {stop, start, call} that ends with a call, for node 1 initially up or down (down at manager creation included), x call kind {RPC, quorum call on 1 or 2 nodes, unicast, unicast and multicast with no-send-waiting} x back-off timers {fired to the horizon after every stop/start, never, or - as a free choice after every event - nothing / only the shortest armed timer / all} x dial mode {non-blocking, blocking}; manager with general and per-node metadata, servers with a connect callback; after each call the script observes at quiescence WITHOUT firing a timer; plus a family in which 1-2 calls are issued during an outage and the node is restarted by an adversary thread at any instant of a script-chosen round (in particular between two steps of a reconnect attempt), optionally with a second adversary thread that lets the armed back-off timers expire at any instant, after which a probe call must be delivered and answered; plus a family in which the node crashes and listens again (adversary thread) while a call is being issued - if the restarted server handled the request and replied, the call must get that reply; oracle: (a) a call issued while the node listens is delivered to its current incarnation, (b) once that incarnation's handler has returned the call has its reply with no back-off timer fired, (c) every accepted stream carries both metadata entries and triggers the connect callback exactly once; all schedules within the deviation bound inside each event; an outcome is (instance, accepted streams, incarnations)",
 		Gen:         rsInstances,
 		Assumptions: []string{"a crash breaks the node's streams immediately (fakegrpc), so the client has noticed the outage at the next quiescent point", "'promptly / never waits out a back-off timer' is decided untimed: no virtual timer is fired between the call and the observation"},
 	})
